@@ -235,7 +235,14 @@ func (rd *reader) closeCodeTable(rule string, checkReject, checkAccept bool) {
 				}
 				k, ok1 := mu.Key.(*ssa.Const)
 				v, ok2 := mu.Value.(*ssa.Const)
-				if !ok1 || !ok2 || k.Value == nil || v.Value == nil || v.Value.Kind() != constant.Bool {
+				// a set written as map[K]struct{}: presence is the only information
+				set := false
+				if ok2 && v.Value == nil {
+					if st, isSt := v.Type().Underlying().(*types.Struct); isSt && st.NumFields() == 0 {
+						set = true
+					}
+				}
+				if !ok1 || !ok2 || k.Value == nil || (!set && (v.Value == nil || v.Value.Kind() != constant.Bool)) {
 					continue
 				}
 				var g *ssa.Global
@@ -251,7 +258,7 @@ func (rd *reader) closeCodeTable(rule string, checkReject, checkAccept bool) {
 					tables[g] = map[int64]bool{}
 				}
 				kv, _ := constant.Int64Val(k.Value)
-				tables[g][kv] = constant.BoolVal(v.Value)
+				tables[g][kv] = set || constant.BoolVal(v.Value)
 			}
 		}
 	}
